@@ -1,12 +1,13 @@
 #!/bin/sh
-# tools/run_seeds.sh <seed>... — quick tier of every registered check under other seeds; summary in /tmp/runseeds.txt
+# tools/run_seeds.sh <seed>... — quick tier of every registered check under other seeds; summary in /tmp/runseeds.txt.
+# Evidence and replays of these runs go to a scratch directory (the committed ones belong to the default seed).
 out=/tmp/runseeds.txt; : > $out
 cd /verif
+mkdir -p /tmp/mt/seeds.ev /tmp/mt/seeds.rp
 for s in "$@"; do
   for p in C01 C02 C03 C04 C05 C06 C07 C08 C09 C10 C11 C12 C13 C14 C15 C16 C17 C18 C19 C20; do
-    VERIF_SEED=$s ./check $p --tier quick > /tmp/runseeds.$p.$s.log 2>&1
+    VERIF_SEED=$s VERIF_EVIDENCE_DIR=/tmp/mt/seeds.ev VERIF_REPLAYS_DIR=/tmp/mt/seeds.rp ./check $p --tier quick > /tmp/runseeds.$p.$s.log 2>&1
     echo "seed=$s $p rc=$? known=$(grep -c KNOWN-FINDING /tmp/runseeds.$p.$s.log) viol=$(grep -c '^VIOLATION' /tmp/runseeds.$p.$s.log)" >> $out
   done
 done
 echo DONE >> $out
-git -C /verif checkout -- evidence 2>/dev/null
